@@ -78,8 +78,26 @@ def run(prog, rep, tier, repo):
         else:
             pd = ('call', U + 'is_positive_definite', (a,), None)
             ok = all(any(cn == pd and v is True for cn, v in f.guards().get(c.bb, [])) and c.args[0] == a for c in fact)
-            (rep.ok if ok else rep.viol)('routing', key, 'Cholesky factorisation of `a` only under is_positive_definite(a)' if ok else
-                                         'a Cholesky factorisation is attempted without the positive-definiteness predicate on the same matrix', site_of(fact[0].span))
+            # refuted in the read form only: a factorisation of the argument itself that no test involving a call of the crate or a local
+            # dominates (nothing could be the predicate), or one dominated by the predicate with the wrong polarity / on another argument
+            definite = False
+            for c in fact:
+                gs = f.guards().get(c.bb, [])
+                if any(cn == pd and v is True for cn, v in gs) and c.args[0] == a:
+                    continue
+                if any(cn == pd and v is False for cn, v in gs) and not any(cn == pd and v is True for cn, v in gs):
+                    definite = True
+                elif any(tag(cn) == 'call' and cn[1] == U + 'is_positive_definite' and tag(cn[2][0]) == 'arg' and cn[2][0] != c.args[0] and tag(c.args[0]) == 'arg' for cn, v in gs):
+                    definite = True
+                elif c.args[0] == a and not any(tag(z) in ('local', 'phi', 'upvar') or (tag(z) == 'call' and z[1] in pdb.bodies) for cn, v in gs for z in subterms(cn)):
+                    definite = True
+            if ok:
+                rep.ok('routing', key, 'Cholesky factorisation of `a` only under is_positive_definite(a)')
+            elif definite:
+                rep.viol('routing', key, 'a Cholesky factorisation is attempted without the positive-definiteness predicate on the same matrix', site_of(fact[0].span))
+            else:
+                rep.undecided('routing', key, 'the test that guards the Cholesky factorisation is not the call is_positive_definite(a) in a read form '
+                              '(a named local, a match, a helper): not read', site_of(fact[0].span), proof=False)
         # ---- D2
         key = 'routing:%s:fallback' % name
         if not fact:
